@@ -1,9 +1,190 @@
-(* C03 - Concentrated swaps follow the curve, round in the pool's favour, match quotes.  Theorem file (first instalment). *)
-From Coq Require Import ZArith List Bool.
+(* C03 - Concentrated swaps follow the curve, round in the pool's favour, match quotes.
+   Theorem file: every theorem is closed by lemmas of C03/{Rounding,Steps,Path,Whole,Estimate}.v and C07.
+   The ideal is CL/Ideal.v: the exact amounts (in Q) of a price move a -> b at liquidity L,
+       token0:  L * |1/b - 1/a|      token1:  L * |a - b|,
+   a swap being compared with the chain of such moves through the buckets it actually traverses ("walked through the same
+   initialised ticks"): every segment's liquidity is the total liquidity of the positions in range at the segment's tick
+   (seg_ok, via the C07 invariant), its amount out is within the exact amount of its move and its amount in plus spread charge,
+   less the spread factor, covers the exact amount in of its move.
+
+   What is proved / not proved of the property's clauses:
+   * "amount paid out never exceeds, amount charged never less than the exact curve prescribes": C03_exact_in_vs_ideal,
+     C03_exact_out_vs_ideal (all reachable states, both directions, any amount, estimate and execution), with one exception that is
+     a (microscopic) fact about the code: a token1 amount going IN is computed by CalcAmount1Delta(roundUp) = MulDec (half-even) then
+     Ceil, which can fall short of the exact amount by less than 1/2 * 10^-36 token per bucket step (C03_amount1_round_up_refuted is the
+     witness; the theorems carry the slack explicitly as in_slack).
+   * per-step lemmas: C03_step_exact_in, C03_step_exact_out (amount in >=, amount out <=, fee >=), C03_fee_ge_ideal, the four
+     C03_next_price_* direction lemmas.
+   * "whenever a swap executes, its result equals the estimate": C03_estimate_eq_execute_in/out; the estimate cannot touch state (it
+     is a function of the state returning a number; for the implementation the driver compares store digests).  The converse is
+     refuted (C03_estimate_converse_refuted), as DESIGN.md says it must be.
+   * NOT proved here (checked on the implementation by the oracle on every run): the lower half of the "bounded rounding amount"
+     sandwich (ideal_out(A - k - 1 - A/10^18) - 1 <= out) and there-and-back; see C03_full and coq/theories/C03/STATUS.md. *)
+From Coq Require Import ZArith QArith List Bool.
 Import ListNotations.
-From Osmo Require Import CL.CLPool CL.CLSwap CL.CLStep C07.Proofs.
+From Osmo Require Import Base.DecModel Gen.CL_consts CL.TickMath CL.CLMath CL.CLPool CL.CLSwap CL.CLStep CL.Ideal.
+From Osmo Require Import C07.Base C07.LP C07.SwapDir C07.Swap C07.Proofs.
+From Osmo Require Import C03.Rounding C03.Steps C03.Path C03.Whole C03.Estimate.
 Open Scope Z_scope.
 
-Theorem C03_failed_step_unchanged : forall s o s', step s o = (s', None) -> s' = s.
-Proof. exact step_failed_unchanged. Qed.
-Print Assumptions C03_failed_step_unchanged.
+Definition reach (sp spf sc t0 : Z) (users : list (Z * Z)) (ops : list op) : state :=
+  run (init_state sp spf sc users t0) ops.
+Lemma reach_inv : forall sp spf sc t0 users ops,
+  In sp cl_AuthorizedTickSpacing -> In spf cl_AuthorizedSpreadFactors -> Inv (reach sp spf sc t0 users ops).
+Proof. intros. apply run_inv, init_inv; [apply authorised_spacing_pos|apply authorised_spread_bounds]; assumption. Qed.
+
+(* ---------- per bucket step ---------- *)
+(* exact-in step: amounts non-negative, amount out within the exact amount of the move, amount in + spread charge covers it *)
+Theorem C03_step_exact_in : forall zfo spf cur target liq remaining next ain aout fee,
+  compute_out_given_in zfo spf cur target liq remaining = Some (next, ain, aout, fee) ->
+  0 <= liq -> 0 < cur -> 0 < next -> 1 < remaining -> 0 <= spf <= 500000000000000000 -> (zfo = true -> 10 ^ 30 <= cur) ->
+  0 <= ain /\ 0 <= aout /\ 0 <= fee /\
+  out_within zfo liq cur next aout /\ in_covers zfo spf liq cur next (ain + fee).
+Proof. exact out_given_in_step. Qed.
+Print Assumptions C03_step_exact_in.
+
+Theorem C03_step_exact_out : forall zfo spf cur target liq remaining next aout ain fee,
+  compute_in_given_out zfo spf cur target liq remaining = Some (next, aout, ain, fee) ->
+  0 <= liq -> 0 < cur -> 0 < next -> 0 <= remaining -> 0 <= spf < P18 ->
+  0 <= ain /\ 0 <= aout /\ 0 <= fee /\ aout <= remaining /\
+  out_within zfo liq cur next aout /\ in_covers zfo spf liq cur next (ain + fee).
+Proof. exact in_given_out_step. Qed.
+Print Assumptions C03_step_exact_out.
+
+(* the spread charge on an amount in is at least amount * f / (1 - f) *)
+Theorem C03_fee_ge_ideal : forall ain spf fee, 0 <= ain -> 0 <= spf < P18 ->
+  fee_from_amount_in ain spf = Some fee -> ain * spf <= fee * (P18 - spf) /\ 0 <= fee.
+Proof. exact fee_from_amount_in_spec. Qed.
+Print Assumptions C03_fee_ge_ideal.
+
+(* the next sqrt price is rounded so that the price never moves the wrong way ... *)
+Theorem C03_next_price_amount0_in : forall cur liq36 amt36 next,
+  0 < liq36 -> 10 ^ 30 <= cur -> 10 ^ 18 <= amt36 ->
+  next_sqrt_price_amount0_in_round_up cur liq36 amt36 = Some next -> next <= cur.
+Proof. exact dir_amount0_in. Qed.
+Theorem C03_next_price_amount1_in : forall cur liq amt next, 0 < liq -> 0 <= amt ->
+  next_sqrt_price_amount1_in_round_down cur liq amt = Some next -> cur <= next.
+Proof. exact dir_amount1_in. Qed.
+Theorem C03_next_price_amount1_out : forall cur liq amt next, 0 < liq -> 0 <= amt ->
+  next_sqrt_price_amount1_out_round_down cur liq amt = Some next -> next <= cur.
+Proof. exact dir_amount1_out. Qed.
+Theorem C03_next_price_amount0_out : forall cur liq36 amt18 next, 0 < liq36 -> 0 < cur -> 0 <= amt18 ->
+  next_sqrt_price_amount0_out_round_up cur liq36 amt18 = Some next -> cur <= next \/ next <= 0.
+Proof. exact dir_amount0_out. Qed.
+(* ... and, for exact-in, never further than the amount pays for (rounded toward the current price) *)
+Theorem C03_next_price_amount0_in_cost : forall cur liq36 amt next, 0 < liq36 -> 0 < cur -> 0 <= amt ->
+  next_sqrt_price_amount0_in_round_up cur liq36 amt = Some next ->
+  liq36 * (cur - next) * P36 <= amt * next * cur /\ 0 < next.
+Proof. exact next_amount0_in_cost. Qed.
+Theorem C03_next_price_amount1_in_cost : forall cur liq amt next, 0 < liq -> 0 <= amt ->
+  next_sqrt_price_amount1_in_round_down cur liq amt = Some next -> liq * (next - cur) <= amt * P18 /\ cur <= next.
+Proof. exact next_amount1_in_cost. Qed.
+Print Assumptions C03_next_price_amount0_in. Print Assumptions C03_next_price_amount0_out.
+Print Assumptions C03_next_price_amount0_in_cost.
+
+(* CalcAmount1Delta(roundUp = true) is NOT always >= the exact amount (MulDec rounds half-even before the Ceil):
+   liquidity 0.4, sqrt prices 1 and 3.5 + 10^-36 need 1 + 0.4 * 10^-36 tokens, the function returns 1 *)
+Theorem C03_amount1_round_up_refuted : exists liq a b x, 0 <= liq /\
+  calc_amount1_delta liq a b true = Some x /\ x * P18 < liq * Z.abs (b - a).
+Proof. exact amount1_up_exact_refuted. Qed.
+Print Assumptions C03_amount1_round_up_refuted.
+
+(* ---------- whole swaps, every reachable state ---------- *)
+Theorem C03_exact_in_vs_ideal : forall sp spf sc t0 users ops zfo accum amt r,
+  In sp cl_AuthorizedTickSpacing -> In spf cl_AuthorizedSpreadFactors -> 0 <= amt ->
+  let s := reach sp spf sc t0 users ops in
+  compute_out_amt_given_in s zfo accum amt = Some r ->
+  exists tr, chain (p_sqrt (s_pool s)) tr (sr_sqrt r) /\ Forall (seg_ok s zfo) tr /\
+    (qz (sr_out r) <= qsum (ideal_out_of zfo) tr)%Q /\
+    (qsum (ideal_in_of zfo) tr - in_slack zfo * qz (Z.of_nat (length tr)) <= qz (sr_in r) * (1 - spread_q s))%Q /\
+    sr_in r <= amt.
+Proof. intros sp spf sc t0 users ops zfo accum amt r H1 H2 Ha s H. eapply exact_in_vs_ideal; [apply reach_inv; assumption|assumption|exact H]. Qed.
+Print Assumptions C03_exact_in_vs_ideal.
+
+Theorem C03_exact_out_vs_ideal : forall sp spf sc t0 users ops zfo accum amt r,
+  In sp cl_AuthorizedTickSpacing -> In spf cl_AuthorizedSpreadFactors -> 0 <= amt ->
+  let s := reach sp spf sc t0 users ops in
+  compute_in_amt_given_out s zfo accum amt = Some r ->
+  exists tr, chain (p_sqrt (s_pool s)) tr (sr_sqrt r) /\ Forall (seg_ok s zfo) tr /\
+    (qz (sr_out r) <= qsum (ideal_out_of zfo) tr)%Q /\
+    (qsum (ideal_in_of zfo) tr - in_slack zfo * qz (Z.of_nat (length tr)) <= qz (sr_in r) * (1 - spread_q s))%Q /\
+    sr_out r <= amt.
+Proof. intros sp spf sc t0 users ops zfo accum amt r H1 H2 Ha s H. eapply exact_out_vs_ideal; [apply reach_inv; assumption|assumption|exact H]. Qed.
+Print Assumptions C03_exact_out_vs_ideal.
+
+(* ---------- estimate = execution ---------- *)
+Theorem C03_estimate_eq_execute_in : forall s sender zfo amt min_out s' out,
+  swap_exact_in s sender zfo amt min_out = Some (s', out) -> calc_out_given_in s zfo amt = Some out.
+Proof. exact estimate_eq_execute_in. Qed.
+Theorem C03_estimate_eq_execute_out : forall s sender zfo amt max_in s' tin,
+  swap_exact_out s sender zfo amt max_in = Some (s', tin) -> calc_in_given_out s zfo amt = Some tin.
+Proof. exact estimate_eq_execute_out. Qed.
+Print Assumptions C03_estimate_eq_execute_in. Print Assumptions C03_estimate_eq_execute_out.
+
+(* the converse does not hold (and is not claimed): 1 unit in gives an estimate of 0 while the execution is rejected *)
+Definition cv_state : state :=
+  run (init_state 100 3000000000000000 (10 ^ 45) [(10 ^ 30, 10 ^ 30); (10 ^ 30, 10 ^ 30); (10 ^ 30, 10 ^ 30)] 1000)
+      [OCreate 0 1000000 1000000 0 0 (-1000) 2000].
+Theorem C03_estimate_converse_refuted :
+  calc_out_given_in cv_state true 1 = Some 0 /\ forall sender, swap_exact_in cv_state sender true 1 1 = None.
+Proof. split; [vm_compute; reflexivity|]. intro sender. vm_compute. reflexivity. Qed.
+Print Assumptions C03_estimate_converse_refuted.
+
+(* ---------- the full property ---------- *)
+(* the clauses that remain unproved in Coq, stated over the model: *)
+Definition C03_error_bounded_full : Prop :=
+  (* the amount out of an exact-in swap of A through k buckets is at least the ideal output of A - (k + 1 + A / 10^18), minus 1 *)
+  forall s zfo amt r, Inv s -> compute_out_amt_given_in s zfo true amt = Some r ->
+    forall tr, chain (p_sqrt (s_pool s)) tr (sr_sqrt r) -> Forall (seg_ok s zfo) tr ->
+    let slack := Z.of_nat (length tr) + 1 + amt / 10 ^ 18 in
+    (ideal_out_given_in s zfo (amt - slack) - 1 <= qz (sr_out r))%Q.
+Definition C03_there_and_back_full : Prop :=
+  forall s sender zfo amt s1 out s2 back, Inv s ->
+    swap_exact_in s sender zfo amt 1 = Some (s1, out) -> swap_exact_in s1 sender (negb zfo) out 1 = Some (s2, back) -> back <= amt.
+Definition C03_full : Prop :=
+  (forall sp spf sc t0 users ops zfo accum amt r,
+     In sp cl_AuthorizedTickSpacing -> In spf cl_AuthorizedSpreadFactors -> 0 <= amt ->
+     compute_out_amt_given_in (reach sp spf sc t0 users ops) zfo accum amt = Some r ->
+     exists tr, chain (p_sqrt (s_pool (reach sp spf sc t0 users ops))) tr (sr_sqrt r) /\ Forall (seg_ok (reach sp spf sc t0 users ops) zfo) tr /\
+       (qz (sr_out r) <= qsum (ideal_out_of zfo) tr)%Q /\
+       (qsum (ideal_in_of zfo) tr - in_slack zfo * qz (Z.of_nat (length tr)) <= qz (sr_in r) * (1 - spread_q (reach sp spf sc t0 users ops)))%Q) /\
+  (forall s sender zfo amt min_out s' out, swap_exact_in s sender zfo amt min_out = Some (s', out) -> calc_out_given_in s zfo amt = Some out) /\
+  (forall s sender zfo amt max_in s' tin, swap_exact_out s sender zfo amt max_in = Some (s', tin) -> calc_in_given_out s zfo amt = Some tin) /\
+  C03_error_bounded_full /\ C03_there_and_back_full.
+
+(* proved: everything but the last two clauses *)
+Theorem C03_partial :
+  (forall sp spf sc t0 users ops zfo accum amt r,
+     In sp cl_AuthorizedTickSpacing -> In spf cl_AuthorizedSpreadFactors -> 0 <= amt ->
+     compute_out_amt_given_in (reach sp spf sc t0 users ops) zfo accum amt = Some r ->
+     exists tr, chain (p_sqrt (s_pool (reach sp spf sc t0 users ops))) tr (sr_sqrt r) /\ Forall (seg_ok (reach sp spf sc t0 users ops) zfo) tr /\
+       (qz (sr_out r) <= qsum (ideal_out_of zfo) tr)%Q /\
+       (qsum (ideal_in_of zfo) tr - in_slack zfo * qz (Z.of_nat (length tr)) <= qz (sr_in r) * (1 - spread_q (reach sp spf sc t0 users ops)))%Q) /\
+  (forall s sender zfo amt min_out s' out, swap_exact_in s sender zfo amt min_out = Some (s', out) -> calc_out_given_in s zfo amt = Some out) /\
+  (forall s sender zfo amt max_in s' tin, swap_exact_out s sender zfo amt max_in = Some (s', tin) -> calc_in_given_out s zfo amt = Some tin).
+Proof.
+  split; [|split; [exact estimate_eq_execute_in|exact estimate_eq_execute_out]].
+  intros sp spf sc t0 users ops zfo accum amt r H1 H2 Ha H.
+  destruct (exact_in_vs_ideal _ _ _ _ _ (reach_inv _ _ _ _ _ _ H1 H2) Ha H) as [tr [A [B [C [D _]]]]].
+  exists tr. repeat split; assumption.
+Qed.
+Print Assumptions C03_partial.
+
+(* ---------- non-vacuity ---------- *)
+(* a pool with two overlapping positions and a third, disjoint one (spacing 100, spread 0.3 %): an exact-in swap of 1 700 000 token1
+   executes, crosses three initialised ticks and a liquidity gap, and pays out 1 693 121 token0; the estimate says the same *)
+Definition nv_users : list (Z * Z) := [(10 ^ 30, 10 ^ 30); (10 ^ 30, 10 ^ 30); (10 ^ 30, 10 ^ 30)].
+Definition nv_state : state :=
+  reach 100 3000000000000000 (10 ^ 45) 1000 nv_users
+    [ OCreate 0 1000000 1000000 0 0 (-1000) 2000; OCreate 1 500000 500000 0 0 (-500) 500; OCreate 1 500000 0 0 0 3000 5000 ].
+Example C03_nonvacuous :
+  In 100 cl_AuthorizedTickSpacing /\ In 3000000000000000 cl_AuthorizedSpreadFactors /\
+  (exists r, compute_out_amt_given_in nv_state false true 1700000 = Some r /\ sr_out r = 1693121 /\ sr_in r = 1700000 /\ sr_tick r = 3771) /\
+  (exists s', swap_exact_in nv_state 2 false 1700000 1 = Some (s', 1693121)) /\
+  calc_out_given_in nv_state false 1700000 = Some 1693121.
+Proof.
+  split; [vm_compute; auto 10|]. split; [vm_compute; auto 10|]. split; [|split].
+  - eexists. split; [vm_compute; reflexivity|]. vm_compute. auto.
+  - eexists. vm_compute. reflexivity.
+  - vm_compute. reflexivity.
+Qed.
